@@ -274,12 +274,15 @@ Definition si_all_kinds : list si_kind :=
 (* =====================================================================================================
    "address in use" when the holder is another instance of the router.
    The property names address in use as a start-up error; two instances sharing an address is legitimate only
-   when so_reuseport is configured explicitly.  [si_must_refuse] is that requirement, [si_fault_stmt] is the code.
+   when the listener's sockets carry SO_REUSEPORT: configured explicitly (socket.so_reuseport), or implied by
+   udp.threads >= 2 (the documented way the proxy opens several sockets on one UDP address: the kernel then reports
+   no error for a further instance of the same user, so there is no start-up error to report).
+   [si_must_refuse] is that requirement, [si_fault_stmt] is the code.
    ===================================================================================================== *)
 Definition si_must_refuse (k : si_kind) (rp : bool) : bool :=
   match k with
   | SiKMetrics => true
-  | SiKSrv s => negb (rp && si_applies_sockopts s)
+  | SiKSrv s => negb ((rp && si_applies_sockopts s) || si_threads_reuseport s)
   | _ => false
   end.
 
